@@ -42,12 +42,22 @@ finally:
     sh("git -C /repo worktree remove --force %s" % wt)
 print("confirmed:", {k: meta.get(k) for k in ("suite_passes_with_patch", "demo_fails_with_patch", "demo_passes_without_patch")})
 # 2. run the checks against /repo with the change applied
-rc, o = sh("git -C /repo status --porcelain"); assert o.strip() == "", "/repo is not clean: " + o
-rc, o = sh("git -C /repo apply %s" % patch); assert rc == 0, o
+SCRATCH = os.environ.get("SCRATCH")  # triage mode: run against a scratch worktree (e.g. while a long run uses /repo)
+repoopt = ""
+if SCRATCH:
+    ewt = "/tmp/eval-" + sid
+    sh("git -C /repo worktree remove --force %s" % ewt)
+    rc, o = sh("git -C /repo worktree add -q --detach %s HEAD" % ewt); assert rc == 0, o
+    rc, o = sh("git apply %s" % patch, cwd=ewt); assert rc == 0, o
+    repoopt = " --repo " + ewt
+    meta["triage_only_scratch_worktree"] = True
+else:
+    rc, o = sh("git -C /repo status --porcelain"); assert o.strip() == "", "/repo is not clean: " + o
+    rc, o = sh("git -C /repo apply %s" % patch); assert rc == 0, o
 try:
     for p in props:
         t0 = time.time()
-        rc, o = sh("./check %s --tier quick --no-evidence" % p, cwd="/verif", timeout=3600)
+        rc, o = sh("./check %s --tier quick --no-evidence%s" % (p, repoopt), cwd="/verif", timeout=3600)
         lines = [l for l in o.splitlines() if re.search(r"^\s+\[|VIOLATION|INCONCL|held on", l)]
         meta["ran"].append({"check": p, "exit": rc, "seconds": round(time.time() - t0, 1), "output": [l[:400] for l in lines[:6]]})
         print(p, "exit", rc, "%.0fs" % (time.time() - t0), (lines[0][:300] if lines else ""))
@@ -56,8 +66,11 @@ try:
             os.makedirs(keep, exist_ok=True)
             if os.path.exists(v): shutil.move(v, os.path.join(keep, "caught-by-" + os.path.basename(v)))
 finally:
-    sh("git -C /repo checkout -- .")
-    rc, o = sh("git -C /repo status --porcelain"); assert o.strip() == "", "/repo not clean after undo: " + o
+    if SCRATCH:
+        sh("git -C /repo worktree remove --force %s" % ewt)
+    else:
+        sh("git -C /repo checkout -- .")
+        rc, o = sh("git -C /repo status --porcelain"); assert o.strip() == "", "/repo not clean after undo: " + o
 dest = os.path.join("/verif/seeded", sid); os.makedirs(dest, exist_ok=True)
 shutil.copy(patch, dest)
 for d in demos: shutil.copy(d, os.path.join(dest, os.path.basename(d) + ".txt"))  # .txt: not compiled by anything
